@@ -53,6 +53,41 @@ pub fn run() {
                         Some(e) => format!("panic:{}", hex(e.as_bytes())),
                     }
                 }
+                ["eventrace", rounds] => {
+                    // the queue (capacity 1000) is filled to one below its capacity, then two writers write at the same moment: one of
+                    // them finds it full. Repeated; reports the first panic of a writer.
+                    let rounds: usize = rounds.parse().unwrap();
+                    let mut first: Option<String> = None;
+                    for _ in 0..rounds {
+                        // drain what is queued (the logger drains every 20 ms), then fill quickly
+                        tokio::time::sleep(std::time::Duration::from_millis(45)).await;
+                        for _ in 0..999 {
+                            event_logger::write_event(LoggerLevel::Info, "fill".to_string(), "verif", "verif", "none");
+                        }
+                        let barrier = std::sync::Arc::new(std::sync::Barrier::new(2));
+                        let hs: Vec<_> = (0..2).map(|i| {
+                            let b = barrier.clone();
+                            std::thread::spawn(move || {
+                                b.wait();
+                                guarded(move || event_logger::write_event(LoggerLevel::Info, format!("racer {}", i), "verif", "verif", "none"))
+                            })
+                        }).collect();
+                        for h in hs {
+                            match h.join() {
+                                Ok(Err(e)) => { if first.is_none() { first = Some(e); } }
+                                Err(_) => { if first.is_none() { first = Some("writer thread died".to_string()); } }
+                                _ => {}
+                            }
+                        }
+                        if first.is_some() {
+                            break;
+                        }
+                    }
+                    match first {
+                        None => "ok".into(),
+                        Some(e) => format!("panic:{}", hex(e.as_bytes())),
+                    }
+                }
                 ["evdrain"] => {
                     // forget what is queued / written so far (after a burst)
                     tokio::time::sleep(std::time::Duration::from_millis(150)).await;
